@@ -59,6 +59,11 @@ def sortPairs (l : List (Str × Nat)) : List (Str × Nat) := l.foldr insPair []
 def csvColumn (cols : Cols) (key : Str) : Option (Nat × Cols) :=
   (cols.lookup key).map (fun i => (i, cols.filter (fun c => c.1 != key)))
 
+/-- the key under which `csv_select_scope` passes on a column of scope `sc`: the part after `sc.`, or the
+scope itself; `none` = not in the scope -/
+def scopeUse (sc k : Str) : Option Str :=
+  if (sc ++ ['.']).isPrefixOf k then some (k.drop (sc.length + 1)) else if k = sc then some k else none
+
 /-- `csv_select_scope(conv, columns, scope, skip_orig_key=skip)` with `remove_cols=True`,
 `include_scope=True`: the selected `(use_key, index)` pairs in dictionary order and the remaining
 dictionary; `none` = "Did not find sufficient data" -/
@@ -67,9 +72,7 @@ def csvSelectScope (cols : Cols) (scope : Option Str) (skip : Str → Bool) :
   let sel := cols.filter (fun c => !skip c.1)
   let sel2 : List (Str × Str × Nat) := match scope with
     | none => sel.map (fun c => (c.1, c.1, c.2))
-    | some sc => sel.filterMap (fun c =>
-        if (sc ++ ['.']).isPrefixOf c.1 then some (c.1, c.1.drop (sc.length + 1), c.2)
-        else if c.1 = sc then some (c.1, c.1, c.2) else none)
+    | some sc => sel.filterMap (fun c => (scopeUse sc c.1).map (fun u => (c.1, u, c.2)))
   if sel2.isEmpty then none else
   some (sel2.map (fun t => (t.2.1, t.2.2)), cols.filter (fun c => !(sel2.map (·.1)).contains c.1))
 
@@ -114,24 +117,6 @@ structure Codec.RoundTrips {R : Type} (C : Codec R) (data : List R) : Prop where
   back : ∀ r ∈ data, ∀ f : Str → Option Str,
     (∀ p ∈ (C.titles data).zip (C.row data r), f p.1 = some p.2) →
     (∀ k ∈ C.keys, k ∉ C.titles data → f k = none) → C.read f = some r
-
-/-! ## the domain of names -/
-
-/-- objective names the table layout can carry: non-empty, no scope separator, not the scope `bins` of the
-bin bounds, and not themselves ending in `lowerBound`/`upperBound` (all seven shipped objective names) -/
-def ObjName (o : Str) : Prop :=
-  o ≠ [] ∧ '.' ∉ o ∧ o ≠ "bins".toList ∧
-    ("lowerBound".toList.isSuffixOf o || "upperBound".toList.isSuffixOf o) = false
-
-instance (o : Str) : Decidable (ObjName o) := by unfold ObjName; infer_instance
-
-/-- bin-bound keys the reader finds again: `bins.lowerBound` itself or a key inside that scope
-(the three `_DEFAULT_BOUNDS` keys; `bins.lowerBound.bins.lowerBound` would collide after re-scoping) -/
-def BBKey (k : Str) : Prop :=
-  k = "bins.lowerBound".toList ∨
-    ("bins.lowerBound.".toList.isPrefixOf k = true ∧ k.drop 16 ≠ "bins.lowerBound".toList)
-
-instance (k : Str) : Decidable (BBKey k) := by unfold BBKey; infer_instance
 
 /-! ## integer cells -/
 
@@ -252,6 +237,23 @@ end writer
 /-- does the key end with `lowerBound` or `upperBound`? -/
 def isBoundKey (s : Str) : Bool := sLower.isSuffixOf s || sUpper.isSuffixOf s
 
+/-! ## the domain of names -/
+
+def sBins : Str := "bins".toList
+
+/-- objective names the table layout can carry: non-empty, no scope separator, not the scope `bins` of the
+bin bounds, and not themselves ending in `lowerBound`/`upperBound` (all seven shipped objective names) -/
+def ObjName (o : Str) : Prop := o ≠ [] ∧ '.' ∉ o ∧ o ≠ sBins ∧ isBoundKey o = false
+
+instance (o : Str) : Decidable (ObjName o) := by unfold ObjName; infer_instance
+
+/-- bin-bound keys the reader finds again: `bins.lowerBound` itself or a key inside that scope
+(the three `_DEFAULT_BOUNDS` keys; `bins.lowerBound.bins.lowerBound` would collide after re-scoping) -/
+def BBKey (k : Str) : Prop :=
+  k = sBinsLB ∨ ((sBinsLB ++ ['.']).isPrefixOf k = true ∧ k.drop (sBinsLB.length + 1) ≠ sBinsLB)
+
+instance (k : Str) : Decidable (BBKey k) := by unfold BBKey; infer_instance
+
 /-- the objective names the reader derives from the bound columns:
 `sorted({s[0] for s in (k.split(".") for k in bounds) if len(s) > 1 and len(s[0]) > 0})` -/
 def namesOfBounds (ob : List (Str × Nat)) : List Str :=
@@ -343,5 +345,205 @@ def prRead (t : Table) : Option (List (PRec ER)) :=
 def prToCsv (sort : List (PRec ER) → List (PRec ER)) (rs : List (PRec ER)) : Option Table := prWrite C (sort rs)
 def prFromCsv (t : Table) : Option (List (PRec ER)) := prRead C V t
 end reader
+
+/-! ## `PackingStatistics` -/
+
+/-- the CSV codec of moptipy's `SampleStatistics` inside a scope (`SsCsvWriter(scope, n_not_needed=True)`,
+`SsCsvReader`): titles and cells depend on the scope (the objective name) and on the data of that column
+group; the reader is a function of "use-key ↦ cell", where the use-keys are the titles with the scope
+prefix removed (the scope itself stays) plus `n`, which the packing reader adds from the end statistics -/
+structure SsCodec (SS : Type) where
+  titles : Str → List SS → List Str
+  row : Str → List SS → SS → List Str
+  read : Str → (Str → Option Str) → Option SS
+
+/-- what the constructor looks at in the embedded objects: the optimised objective, the library's test
+`end_statistics.best_f == statistics` (`SampleStatistics.__eq__`, opaque), minimum and maximum -/
+structure EsView (ES SS : Type) where
+  objective : ES → Str
+  bestIs : ES → SS → Bool
+  ssMin : SS → Int
+  ssMax : SS → Int
+
+/-- a `PackingStatistics` record -/
+structure PSRec (ES SS : Type) where
+  es : ES
+  nItems : Int
+  nDiff : Int
+  binW : Int
+  binH : Int
+  objectives : List (Str × SS)
+  objBounds : List (Str × Int)
+  binBounds : List (Str × Int)
+
+def kN : Str := "n".toList
+
+/-- what `PackingStatistics.__init__` checks: `best_f` is the statistics of the optimised objective, two
+bounds per objective, minimum and maximum of every objective between its bounds, bin bounds in `1..1e9`
+and not above the smallest bin count, the four instance numbers in range -/
+def PSRec.okB {ES SS : Type} (V : EsView ES SS) (r : PSRec ES SS) : Bool :=
+  (match r.objectives.lookup (V.objective r.es) with
+   | some s => V.bestIs r.es s
+   | none => false) &&
+  decide (r.objBounds.length = 2 * r.objectives.length) &&
+  r.objectives.all (fun p =>
+    match r.objBounds.lookup (scopeKey p.1 sLower), r.objBounds.lookup (scopeKey p.1 sUpper) with
+    | some lo, some hi => decide (lo ≤ V.ssMin p.2) && decide (V.ssMin p.2 ≤ hi) &&
+                          decide (lo ≤ V.ssMax p.2) && decide (V.ssMax p.2 ≤ hi)
+    | _, _ => false) &&
+  r.binBounds.all (fun b => decide (1 ≤ b.2) && decide (b.2 ≤ 1000000000) &&
+    (match r.objectives.lookup sBinCount with
+     | some bins => decide (b.2 ≤ V.ssMin bins)
+     | none => true)) &&
+  decide (1 ≤ r.nDiff) && decide (r.nDiff ≤ 1000000000000) &&
+  decide (r.nDiff ≤ r.nItems) && decide (r.nItems ≤ 1000000000000) &&
+  decide (1 ≤ r.binW) && decide (r.binW ≤ 1000000000000) &&
+  decide (1 ≤ r.binH) && decide (r.binH ≤ 1000000000000)
+
+def PSRec.Ok {ES SS : Type} (V : EsView ES SS) (r : PSRec ES SS) : Prop := r.okB V = true
+
+instance {ES SS : Type} (V : EsView ES SS) (r : PSRec ES SS) : Decidable (r.Ok V) := by
+  unfold PSRec.Ok; infer_instance
+
+def mkPSRec {ES SS : Type} (V : EsView ES SS) (r : PSRec ES SS) : Option (PSRec ES SS) :=
+  if r.Ok V then some r else none
+
+section statwriter
+variable {ES SS : Type} (C : Codec ES) (S : SsCodec SS)
+
+def psBbKeys (rs : List (PSRec ES SS)) : List Str := sortedSet (rs.flatMap (fun r => r.binBounds.map (·.1)))
+def psObjKeys (rs : List (PSRec ES SS)) : List Str := sortedSet (rs.flatMap (fun r => r.objectives.map (·.1)))
+
+/-- `ddd.objectives[k] for ddd in data` of `CsvWriter.setup`; `none` = `KeyError` (a record lacks an
+objective that another record has) -/
+def psColumn (rs : List (PSRec ES SS)) (o : Str) : Option (List SS) := rs.mapM (fun r => r.objectives.lookup o)
+
+def psObjTitles (rs : List (PSRec ES SS)) (o : Str) : Option (List Str) :=
+  (psColumn rs o).map (fun col => [scopeKey o sLower] ++ S.titles o col ++ [scopeKey o sUpper])
+
+/-- `CsvWriter.get_column_titles` -/
+def psHeader (rs : List (PSRec ES SS)) : Option (List Str) :=
+  ((psObjKeys rs).mapM (psObjTitles S rs)).map (fun ots =>
+    C.titles (rs.map (·.es)) ++ fixedTitles ++ psBbKeys rs ++ ots.flatten)
+
+def psObjCells (rs : List (PSRec ES SS)) (r : PSRec ES SS) (o : Str) : Option (List Str) :=
+  match psColumn rs o, r.objectives.lookup o with
+  | some col, some s => some ([cellOpt (r.objBounds.lookup (scopeKey o sLower))] ++ S.row o col s ++
+      [cellOpt (r.objBounds.lookup (scopeKey o sUpper))])
+  | _, _ => none
+
+/-- `CsvWriter.get_row` -/
+def psRow (rs : List (PSRec ES SS)) (r : PSRec ES SS) : Option (List Str) :=
+  ((psObjKeys rs).mapM (psObjCells S rs r)).map (fun ocs =>
+    C.row (rs.map (·.es)) r.es ++ [showInt r.binH, showInt r.binW, showInt r.nItems, showInt r.nDiff]
+      ++ (psBbKeys rs).map (fun k => cellOpt (r.binBounds.lookup k)) ++ ocs.flatten)
+
+def psWrite (rs : List (PSRec ES SS)) : Option Table :=
+  match psHeader C S rs, rs.mapM (psRow C S rs) with
+  | some h, some rows =>
+    if (colsOf h).isSome && rows.all (fun row => decide (row.length ≤ h.length)) then
+      some ⟨h, rows.map trimRow⟩ else none
+  | _, _ => none
+end statwriter
+
+/-- the state of `packing_statistics.CsvReader` after `__init__` -/
+structure PSReader where
+  esCols : Cols
+  iN : Nat
+  iD : Nat
+  iW : Nat
+  iH : Nat
+  bb : List (Str × Nat)
+  ob : List (Str × Nat)
+  objs : List (Str × List (Str × Nat))
+  deriving Repr
+
+/-- `csv_select_scope(SsCsvReader, columns, ss, ((KEY_N, idx_n),))` for each objective name, threading the
+dictionary: the use-keys of the columns in the scope plus `n` -/
+def psSelectObjs (idxN : Nat) (cols : Cols) : List Str → Option (List (Str × List (Str × Nat)))
+  | [] => some []
+  | o :: os =>
+    match csvSelectScope cols (some o) (fun _ => false) with
+    | none => none
+    | some (sel, cols') =>
+      let sel' := if (sel.map (·.1)).contains kN then sel else sel ++ [(kN, idxN)]
+      (psSelectObjs idxN cols' os).map ((o, sel') :: ·)
+
+/-- `packing_statistics.CsvReader.__init__(columns)` -/
+def psSetup (keys : List Str) (cols : Cols) : Option PSReader :=
+  let esCols := cols.filter (fun c => keys.contains c.1)
+  let cols := cols.filter (fun c => !keys.contains c.1)
+  match esCols.lookup kN with
+  | none => none
+  | some idxN =>
+  match csvColumn cols kNItems with
+  | none => none
+  | some (iN, cols) =>
+  match csvColumn cols kNDiff with
+  | none => none
+  | some (iD, cols) =>
+  match csvColumn cols kBinWidth with
+  | none => none
+  | some (iW, cols) =>
+  match csvColumn cols kBinHeight with
+  | none => none
+  | some (iH, cols) =>
+  match csvSelectScope cols (some sBinsLB) (fun _ => false) with
+  | none => none
+  | some (bbSel, cols) =>
+  let bb := sortPairs (bbSel.map (fun p => (rescope p.1, p.2)))
+  match csvSelectScope cols none (fun s => !isBoundKey s) with
+  | none => none
+  | some (obSel, cols) =>
+  let ob := sortPairs obSel
+  if ob.length % 2 ≠ 0 then none else
+  match psSelectObjs idxN cols (namesOfBounds ob) with
+  | none => none
+  | some objs =>
+    if objs.isEmpty || 2 * objs.length ≠ ob.length then none else
+    some ⟨esCols, iN, iD, iW, iH, bb, ob, objs⟩
+
+section statreader
+variable {ES SS : Type} (C : Codec ES) (S : SsCodec SS) (V : EsView ES SS)
+
+def psParseRow (rd : PSReader) (data : List Str) : Option (PSRec ES SS) :=
+  match C.read (erLookup rd.esCols data), readInt data rd.iN, readInt data rd.iD,
+        readInt data rd.iW, readInt data rd.iH,
+        rd.objs.mapM (fun o => (S.read o.1 (erLookup o.2 data)).map (fun s => (o.1, s))),
+        readMapStrict data rd.ob, readMapStrict data rd.bb with
+  | some es, some n, some d, some w, some h, some objectives, some bounds, some bins =>
+    mkPSRec V ⟨es, n, d, w, h, objectives, bounds, bins⟩
+  | _, _, _, _, _, _, _, _ => none
+
+def psRead (t : Table) : Option (List (PSRec ES SS)) :=
+  match colsOf t.header with
+  | none => none
+  | some cols =>
+    match psSetup C.keys cols with
+    | none => none
+    | some rd => t.rows.mapM (fun cells => (padRow t.header.length cells).bind (psParseRow C S V rd))
+end statreader
+
+/-! ## the domain of the round-trip theorem -/
+
+/-- The record sets `csv_roundtrip` speaks about: what the package itself produces (`from_logs`,
+`from_packing_and_end_result`), stated on the data:
+* every record was accepted by the constructor (`Ok`), its three mappings are in canonical form (sorted by
+  key) and its bound keys are the `.lowerBound`/`.upperBound` keys of its own objectives;
+* objective names are plain names (`ObjName`), bin-bound keys lie in the scope `bins.lowerBound` (`BBKey`)
+  and at least one record has a bin bound (otherwise the reader raises — constructors accept such records,
+  they are outside the domain);
+* the embedded codec round-trips on the embedded records, and none of the titles its reader asks for is a
+  title of the packing columns. -/
+structure PRDomain {ER : Type} (C : Codec ER) (V : ErView ER) (rs : List (PRec ER)) : Prop where
+  ok : ∀ r ∈ rs, r.Ok V
+  canon : ∀ r ∈ rs, SortedKeys r.objectives ∧ SortedKeys r.objBounds ∧ SortedKeys r.binBounds
+  bounds : ∀ r ∈ rs, ∀ p ∈ r.objBounds, ∃ q ∈ r.objectives,
+    p.1 = scopeKey q.1 sLower ∨ p.1 = scopeKey q.1 sUpper
+  objName : ∀ r ∈ rs, ∀ p ∈ r.objectives, ObjName p.1
+  bbKey : ∀ r ∈ rs, ∀ p ∈ r.binBounds, BBKey p.1
+  bbSome : ∃ r ∈ rs, r.binBounds ≠ []
+  codec : C.RoundTrips (rs.map (·.er))
+  keysDisj : ∀ k ∈ C.keys, k ∉ fixedTitles ++ bbKeys rs ++ (objKeys rs).flatMap objTitles
 
 end Csv
